@@ -27,6 +27,24 @@ open PedVerif.Gen.Validate
 
 /-! ## Basic lemmas -/
 
+/-- **C12 (strict, the generated tests).** In the branch "no Parameter declared for this key" the keyword loop raises
+    TooManyArguments iff `strict`, and the positional loop iff `strict` and the key is not **equal to** `self` (the receiver of
+    a method, which Python binds itself) — for every key: no other name is exempt, in particular no substring or superstring
+    of `self` (`s`, `e`, `l`, `f`, `se`, `el`, `lf`, `sel`, `elf`, `selfie`, …), nor `cls`, `args`, `kwargs`.  Proved about the
+    generated `kwStrictTest` / `posStrictTest`, so a membership / substring test that exempts more names breaks the proof. -/
+theorem strict_exempts_only_the_receiver :
+    (∀ strict k, kwStrictTest strict k = strict) ∧ (∀ strict k, posStrictTest strict k = (strict && k != selfName)) := by
+  refine ⟨?_, ?_⟩ <;> intro strict k <;> cases strict <;>
+    (by_cases h : k = 0
+     · subst h; simp [kwStrictTest, posStrictTest, selfName]
+     · have hb : (k == 0) = false := by simpa using h
+       have hb' : (0 == k) = false := by simpa using fun h' : 0 = k => h h'.symm
+       simp [kwStrictTest, posStrictTest, selfName, bne, hb, hb', h])
+
+@[simp] theorem kwStrictTest_eq (strict : Bool) (k : Name) : kwStrictTest strict k = strict := strict_exempts_only_the_receiver.1 strict k
+@[simp] theorem posStrictTest_eq (strict : Bool) (k : Name) : posStrictTest strict k = (strict && k != selfName) :=
+  strict_exempts_only_the_receiver.2 strict k
+
 theorem findP_name : ∀ (ps : List VParam) (k : Name) (p : VParam), findP ps k = some p → p.name = k := by
   intro ps
   induction ps with
@@ -162,11 +180,11 @@ theorem gateOut_kw (c : Cfg) : ∀ (kw : List (Name × PV)) (rest : List Item) (
       = (loopKw c.ps c.strict kw res used).bind (fun st => gateOut c rest st.1) := by
   intro kw
   induction kw with
-  | nil => intro rest res used; simp [loopKw, Except.bind]
+  | nil => intro rest res used; simp [loopKw, Except.bind, kwStrictTest_eq]
   | cons kv tl ih =>
     intro rest res used
     obtain ⟨k, v⟩ := kv
-    simp only [List.map_cons, List.cons_append, gateOut, itemOut, loopKw]
+    simp only [List.map_cons, List.cons_append, gateOut, itemOut, loopKw, kwStrictTest_eq]
     cases hf : findP c.ps k with
     | none =>
       simp only
@@ -184,11 +202,11 @@ theorem gateOut_pos (c : Cfg) : ∀ (bd : List (Name × PV)) (rest : List Item) 
       = (loopPos c.ps c.strict bd res used ua).bind (fun st => gateOut c rest st.1) := by
   intro bd
   induction bd with
-  | nil => intro rest res used ua; simp [loopPos, Except.bind]
+  | nil => intro rest res used ua; simp [loopPos, Except.bind, posStrictTest_eq]
   | cons kv tl ih =>
     intro rest res used ua
     obtain ⟨k, v⟩ := kv
-    simp only [List.map_cons, List.cons_append, gateOut, itemOut, loopPos]
+    simp only [List.map_cons, List.cons_append, gateOut, itemOut, loopPos, posStrictTest_eq]
     cases hf : findP c.ps k with
     | none =>
       simp only
@@ -236,13 +254,13 @@ theorem loopKw_used (ps : List VParam) (strict : Bool) :
   induction kw with
   | nil =>
     intro res res' used used' h n
-    simp only [loopKw, Except.ok.injEq, Prod.mk.injEq] at h
+    simp only [loopKw, Except.ok.injEq, Prod.mk.injEq, kwStrictTest_eq] at h
     obtain ⟨_, rfl⟩ := h
     simp
   | cons kv tl ih =>
     intro res res' used used' h n
     obtain ⟨k, v⟩ := kv
-    simp only [loopKw] at h
+    simp only [loopKw, kwStrictTest_eq] at h
     cases hf : findP ps k with
     | none =>
       simp only [hf] at h
@@ -290,13 +308,13 @@ theorem loopPos_used (ps : List VParam) (strict : Bool) :
   induction bd with
   | nil =>
     intro res res' used used' ua ua' h n
-    simp only [loopPos, Except.ok.injEq, Prod.mk.injEq] at h
+    simp only [loopPos, Except.ok.injEq, Prod.mk.injEq, posStrictTest_eq] at h
     obtain ⟨_, rfl, _⟩ := h
     simp
   | cons kv tl ih =>
     intro res res' used used' ua ua' h n
     obtain ⟨k, v⟩ := kv
-    simp only [loopPos] at h
+    simp only [loopPos, posStrictTest_eq] at h
     cases hf : findP ps k with
     | none =>
       simp only [hf] at h
@@ -446,14 +464,14 @@ theorem loopKw_get (ps : List VParam) (strict : Bool) :
   induction kw with
   | nil =>
     intro res res' used used' _ h
-    simp only [loopKw, Except.ok.injEq, Prod.mk.injEq] at h
+    simp only [loopKw, Except.ok.injEq, Prod.mk.injEq, kwStrictTest_eq] at h
     obtain ⟨rfl, rfl⟩ := h
     simp [lookupKV]
   | cons hd tl ih =>
     intro res res' used used' hnd h
     obtain ⟨k, v⟩ := hd
     obtain ⟨hk, hnd'⟩ := hnd
-    simp only [loopKw] at h
+    simp only [loopKw, kwStrictTest_eq] at h
     cases hf : findP ps k with
     | none =>
       simp only [hf] at h
@@ -555,14 +573,14 @@ theorem loopPos_get (ps : List VParam) (strict : Bool) :
   induction bd with
   | nil =>
     intro res res' used used' ua ua' _ h
-    simp only [loopPos, Except.ok.injEq, Prod.mk.injEq] at h
+    simp only [loopPos, Except.ok.injEq, Prod.mk.injEq, posStrictTest_eq] at h
     obtain ⟨rfl, rfl, _⟩ := h
     simp [lookupKV]
   | cons hd tl ih =>
     intro res res' used used' ua ua' hnd h
     obtain ⟨k, v⟩ := hd
     obtain ⟨hk, hnd'⟩ := hnd
-    simp only [loopPos] at h
+    simp only [loopPos, posStrictTest_eq] at h
     cases hf : findP ps k with
     | none =>
       simp only [hf] at h
@@ -1059,7 +1077,7 @@ theorem loopKw_blocks (ps : List VParam) (strict : Bool) :
   | cons hd tl ih =>
     intro res used ⟨kv, hkv, hfail⟩
     obtain ⟨k, v⟩ := hd
-    simp only [loopKw]
+    simp only [loopKw, kwStrictTest_eq]
     simp only [List.mem_cons] at hkv
     cases hf : findP ps k with
     | none =>
@@ -1089,7 +1107,7 @@ theorem loopPos_blocks (ps : List VParam) (strict : Bool) :
   | cons hd tl ih =>
     intro res used ua ⟨kv, hkv, hfail⟩
     obtain ⟨k, v⟩ := hd
-    simp only [loopPos]
+    simp only [loopPos, posStrictTest_eq]
     simp only [List.mem_cons] at hkv
     cases hf : findP ps k with
     | none =>
@@ -1620,7 +1638,7 @@ theorem loopKw_inv (c : Cfg) (args : List PV) (kw : List (Name × PV)) :
   induction kwl with
   | nil =>
     intro res res' used used' _ hinv h
-    simp only [loopKw, Except.ok.injEq, Prod.mk.injEq] at h
+    simp only [loopKw, Except.ok.injEq, Prod.mk.injEq, kwStrictTest_eq] at h
     obtain ⟨rfl, _⟩ := h; exact hinv
   | cons hd tl ih =>
     intro res res' used used' hraw hinv h
@@ -1629,7 +1647,7 @@ theorem loopKw_inv (c : Cfg) (args : List PV) (kw : List (Name × PV)) :
     have hv : v ∈ rawInputs args kw := by
       simp only [rawInputs, List.mem_append, List.mem_map]; exact Or.inr ⟨(k, v), hmem, rfl⟩
     have hraw' : ∀ kv ∈ tl, kv ∈ kw := fun kv hkv => hraw kv (by simp [hkv])
-    simp only [loopKw] at h
+    simp only [loopKw, kwStrictTest_eq] at h
     cases hf : findP c.ps k with
     | none =>
       simp only [hf] at h
@@ -1660,7 +1678,7 @@ theorem loopPos_inv (c : Cfg) (args : List PV) (kw : List (Name × PV)) :
   induction bd with
   | nil =>
     intro res res' used used' ua ua' _ hinv h
-    simp only [loopPos, Except.ok.injEq, Prod.mk.injEq] at h
+    simp only [loopPos, Except.ok.injEq, Prod.mk.injEq, posStrictTest_eq] at h
     obtain ⟨rfl, _⟩ := h; exact hinv
   | cons hd tl ih =>
     intro res res' used used' ua ua' hraw hinv h
@@ -1669,7 +1687,7 @@ theorem loopPos_inv (c : Cfg) (args : List PV) (kw : List (Name × PV)) :
     have hv : v ∈ rawInputs args kw := by
       simp only [rawInputs, List.mem_append]; exact Or.inl (List.of_mem_zip hmem).2
     have hraw' : ∀ kv ∈ tl, kv ∈ c.sig.posNames.zip args := fun kv hkv => hraw kv (by simp [hkv])
-    simp only [loopPos] at h
+    simp only [loopPos, posStrictTest_eq] at h
     cases hf : findP c.ps k with
     | none =>
       simp only [hf] at h
@@ -2180,11 +2198,11 @@ theorem loopKw_pres (ps : List VParam) (strict : Bool) : ∀ (kw : List (Name ×
     P res → loopKw ps strict kw res used = .ok (res', used') → P res' := by
   intro kw
   induction kw with
-  | nil => intro res res' used used' h0 h; simp only [loopKw, Except.ok.injEq, Prod.mk.injEq] at h; obtain ⟨rfl, _⟩ := h; exact h0
+  | nil => intro res res' used used' h0 h; simp only [loopKw, Except.ok.injEq, Prod.mk.injEq, kwStrictTest_eq] at h; obtain ⟨rfl, _⟩ := h; exact h0
   | cons kv tl ih =>
     intro res res' used used' h0 h
     obtain ⟨k, v⟩ := kv
-    simp only [loopKw] at h
+    simp only [loopKw, kwStrictTest_eq] at h
     cases hf : findP ps k with
     | none =>
       simp only [hf] at h
@@ -2204,11 +2222,11 @@ theorem loopPos_pres (ps : List VParam) (strict : Bool) :
   induction bd with
   | nil =>
     intro res res' used used' ua ua' h0 h
-    simp only [loopPos, Except.ok.injEq, Prod.mk.injEq] at h; obtain ⟨rfl, _⟩ := h; exact h0
+    simp only [loopPos, Except.ok.injEq, Prod.mk.injEq, posStrictTest_eq] at h; obtain ⟨rfl, _⟩ := h; exact h0
   | cons kv tl ih =>
     intro res res' used used' ua ua' h0 h
     obtain ⟨k, v⟩ := kv
-    simp only [loopPos] at h
+    simp only [loopPos, posStrictTest_eq] at h
     cases hf : findP ps k with
     | none =>
       simp only [hf] at h
@@ -2862,11 +2880,11 @@ theorem loopKw_error_named (ps : List VParam) (strict : Bool) :
     ∀ (kw : List (Name × PV)) (res : Assoc) (used : List Name) (e : VExc), loopKw ps strict kw res used = .error e → NamedBy ps e := by
   intro kw
   induction kw with
-  | nil => intro res used e h; simp [loopKw] at h
+  | nil => intro res used e h; simp [loopKw, kwStrictTest_eq] at h
   | cons hd tl ih =>
     intro res used e h
     obtain ⟨k, v⟩ := hd
-    simp only [loopKw] at h
+    simp only [loopKw, kwStrictTest_eq] at h
     cases hf : findP ps k with
     | none =>
       rw [hf] at h
@@ -2888,11 +2906,11 @@ theorem loopPos_error_named (ps : List VParam) (strict : Bool) :
       loopPos ps strict bd res used ua = .error e → NamedBy ps e := by
   intro bd
   induction bd with
-  | nil => intro res used ua e h; simp [loopPos] at h
+  | nil => intro res used ua e h; simp [loopPos, posStrictTest_eq] at h
   | cons hd tl ih =>
     intro res used ua e h
     obtain ⟨k, v⟩ := hd
-    simp only [loopPos] at h
+    simp only [loopPos, posStrictTest_eq] at h
     cases hf : findP ps k with
     | none =>
       rw [hf] at h
@@ -3051,6 +3069,21 @@ theorem rejection_naming_full_fails : ¬ rejection_naming_full := by
     name a validator's exception may carry.) -/
 theorem rejection_naming_source_shape :
     (∀ n, parameterExceptionStoresName n = n) ∧ (∀ n, raiseExceptionName n = n) := ⟨fun _ => rfl, fun _ => rfl⟩
+
+/-- `@validate(Parameter('a'), strict=True)  def f(a, s)` (names a = 2, s = 12 — a substring of `self`), called `f(100, 101)`:
+    no Parameter is declared for `s`, so the call raises TooManyArguments and the body does not run; a method's receiver
+    (`self`, name 0) is the only exempt name -/
+def exStrictNames (second : Name) : Cfg :=
+  { ps := [⟨2, true, none, none, none, [], false, by decide⟩],
+    sig := { pos := [⟨2, none⟩, ⟨second, none⟩], varArgs := false, kwOnly := [] }, strict := true, ignoreInput := false, req := .noContext }
+example : nameTable[12]? = some "s" ∧ nameTable[13]? = some "e" ∧ nameTable[20]? = some "elf" ∧ nameTable[0]? = some "self" := by decide
+example : ∀ n ∈ [12, 13, 14, 15, 16, 17, 18, 19, 20, 21, 9, 1, 8],
+    runValidate (exStrictNames n) false .args [.obj 100, .obj 101] [] = .error .tooMany := by
+  intro n hn
+  simp only [List.mem_cons, List.not_mem_nil, or_false] at hn
+  rcases hn with rfl | rfl | rfl | rfl | rfl | rfl | rfl | rfl | rfl | rfl | rfl | rfl | rfl <;> rfl
+example : ∃ e, runValidate (exStrictNames 12) false .args [.obj 100, .obj 101] [] = .error e :=
+  strict_surplus_pos _ _ _ _ _ 12 (.obj 101) rfl rfl (by decide) rfl (by decide)
 
 /-- `@validate(Parameter('a', [NotEmpty]), Parameter('b', [AddressValidator]), Parameter('c'))  def f(a, b, c)` where the validator
     of `b` delegates through `validate_param(value, parameter_name='a')` to a validator that rejects 101 (names a = 2, b = 3,
@@ -3281,7 +3314,7 @@ theorem loopKwW_fst (w0 : σ) (ps : List (VParamW σ)) (hps : ∀ p ∈ ps, p.Wo
   | cons kv rest ih =>
     intro res used w
     obtain ⟨k, v⟩ := kv
-    simp only [loopKwW, loopKw, findPW_erase]
+    simp only [loopKwW, loopKw, findPW_erase, kwStrictTest_eq]
     cases hf : findPW ps k with
     | none =>
       simp only [Option.map_none]
@@ -3308,7 +3341,7 @@ theorem loopPosW_fst (w0 : σ) (ps : List (VParamW σ)) (hps : ∀ p ∈ ps, p.W
   | cons kv rest ih =>
     intro res used ua w
     obtain ⟨k, v⟩ := kv
-    simp only [loopPosW, loopPos, findPW_erase]
+    simp only [loopPosW, loopPos, findPW_erase, posStrictTest_eq]
     cases hf : findPW ps k with
     | none =>
       simp only [Option.map_none]
